@@ -92,4 +92,150 @@ theorem U256.cmp_one_iff (v : U256) (hv : v.WF) :
   repeat' split
   all_goals simp <;> omega
 
+/-! ## `Uint256.Div`: the doubling loop -/
+
+theorem U256.top_bit_clear (t : U256) (ht : t.WF) (h : (shr64 t.w3 63 == 0) = true) :
+    t.toNat * 2 < W ^ 4 := by
+  obtain ⟨h3, h2, h1, h0⟩ := ht
+  unfold shr64 at h
+  unfold U256.toNat
+  simp only [beq_iff_eq, W] at *
+  have : t.w3 < 2 ^ 63 := by
+    have := Nat.div_eq_zero_iff.mp h
+    omega
+  omega
+
+theorem U256.top_bit_set (t : U256) (ht : t.WF) (h : ¬ (shr64 t.w3 63 == 0) = true) :
+    W ^ 4 ≤ t.toNat * 2 := by
+  obtain ⟨h3, h2, h1, h0⟩ := ht
+  unfold shr64 at h
+  unfold U256.toNat
+  simp only [beq_iff_eq, W] at *
+  have : 2 ^ 63 ≤ t.w3 := by
+    apply Nat.le_of_not_lt
+    intro hlt
+    exact h (Nat.div_eq_of_lt hlt)
+  omega
+
+/-- the doubling loop stops (fuel is enough as soon as `r < t * 2^fuel`) on `t' = m' * v`,
+`t' ≤ r < 2 t'` -/
+theorem U256.divInner_spec (r : U256) (hr : r.WF) (vn : Nat) (hv : 1 ≤ vn) :
+    ∀ (fuel : Nat) (t m : U256), t.WF → m.WF → t.toNat = m.toNat * vn → t.toNat ≤ r.toNat →
+      r.toNat < t.toNat * 2 ^ fuel →
+      ∃ t' m', U256.divInner r fuel t m = some (t', m') ∧ t'.WF ∧ m'.WF ∧
+        t'.toNat = m'.toNat * vn ∧ t'.toNat ≤ r.toNat ∧ r.toNat < t'.toNat * 2 := by
+  intro fuel
+  induction fuel with
+  | zero => intro t m _ _ _ hle hlt; simp at hlt; omega
+  | succ fuel ih =>
+    intro t m ht hm htm hle hlt
+    unfold U256.divInner
+    have hts := U256.leftShift_spec t 1 ht
+    have hms := U256.leftShift_spec m 1 hm
+    by_cases c1 : (shr64 t.w3 63 == 0) = true
+    · have hfit := U256.top_bit_clear t ht c1
+      have e1 : (t.leftShift 1).toNat = t.toNat * 2 := by
+        rw [hts.2]; exact Nat.mod_eq_of_lt hfit
+      by_cases c2 : (t.leftShift 1).lessThanOrEqual r = true
+      · rw [if_pos (by simp [c1, c2])]
+        have hle' := (U256.lessThanOrEqual_iff _ _ hts.1 hr).mp c2
+        have hmle : m.toNat * 2 ≤ t.toNat * 2 := by
+          rw [htm]; exact Nat.mul_le_mul_right 2 (Nat.le_mul_of_pos_right _ hv)
+        have e2 : (m.leftShift 1).toNat = m.toNat * 2 := by
+          rw [hms.2]; exact Nat.mod_eq_of_lt (Nat.lt_of_le_of_lt hmle hfit)
+        apply ih _ _ hts.1 hms.1
+        · rw [e1, e2, htm, Nat.mul_right_comm]
+        · rw [e1] at hle'; rw [e1]; exact hle'
+        · rw [e1, Nat.mul_assoc, ← Nat.pow_succ']; exact hlt
+      · rw [if_neg (by simp [c1, c2])]
+        refine ⟨t, m, rfl, ht, hm, htm, hle, ?_⟩
+        have : ¬ (t.leftShift 1).toNat ≤ r.toNat :=
+          fun h => c2 ((U256.lessThanOrEqual_iff _ _ hts.1 hr).mpr h)
+        rw [e1] at this; omega
+    · rw [if_neg (by simp [c1])]
+      refine ⟨t, m, rfl, ht, hm, htm, hle, ?_⟩
+      have h1 := U256.top_bit_set t ht c1
+      have h2 := U256.toNat_lt hr
+      omega
+
+/-! ## `Uint256.Div`: the subtract-and-accumulate loop -/
+
+theorem W4_eq_pow : W ^ 4 = 2 ^ 256 := by decide
+
+/-- with `q * v + r = un` as invariant and `r < 2^fuel` as measure (the remainder at least halves
+every turn), `fuel + 1` turns are enough, neither `Sub` nor `Add` panics, and the result is `un / v` -/
+theorem U256.divOuter_spec (v : U256) (hv : v.WF) (hv1 : 1 ≤ v.toNat) (un : Nat) (hun : un < W ^ 4) :
+    ∀ (fuel : Nat) (q r : U256), q.WF → r.WF → q.toNat * v.toNat + r.toNat = un →
+      r.toNat < 2 ^ fuel →
+      ∃ q', U256.divOuter v (fuel + 1) q r = some (.ok q') ∧ q'.WF ∧ q'.toNat = un / v.toNat := by
+  intro fuel
+  induction fuel with
+  | zero =>
+    intro q r hq hr hinv hlt
+    have hr0 : r.toNat = 0 := by simp at hlt; omega
+    unfold U256.divOuter
+    have c : ¬ r.greaterThanOrEqual v = true := by
+      rw [U256.greaterThanOrEqual_iff r v hr hv]; omega
+    rw [if_neg c]
+    refine ⟨q, rfl, hq, ?_⟩
+    rw [← hinv, hr0, Nat.add_zero, Nat.mul_div_cancel _ hv1]
+  | succ fuel ih =>
+    intro q r hq hr hinv hlt
+    unfold U256.divOuter
+    by_cases c : r.greaterThanOrEqual v = true
+    · rw [if_pos c]
+      have hge := (U256.greaterThanOrEqual_iff r v hr hv).mp c
+      have hr256 := U256.toNat_lt hr
+      obtain ⟨t, m, e, ht, hm, htm, hle, hlt2⟩ :=
+        U256.divInner_spec r hr v.toNat hv1 300 v ⟨0, 0, 0, 1⟩ hv U256.one_WF
+          (by have : U256.toNat ⟨0, 0, 0, 1⟩ = 1 := by decide
+              rw [this, Nat.one_mul])
+          hge
+          (by
+            have h1 : r.toNat < 2 ^ 300 := by rw [W4_eq_pow] at hr256; omega
+            exact Nat.lt_of_lt_of_le h1 (Nat.le_mul_of_pos_left _ hv1))
+      rw [e]
+      simp only []
+      have hqm : q.toNat + m.toNat < W ^ 4 := by
+        have h1 : m.toNat ≤ m.toNat * v.toNat := Nat.le_mul_of_pos_right _ hv1
+        have h2 : q.toNat ≤ q.toNat * v.toNat := Nat.le_mul_of_pos_right _ hv1
+        omega
+      rw [U256.sub_spec r t hr ht, if_pos hle, U256.add_spec q m hq hm, if_pos hqm]
+      simp only []
+      apply ih _ _ (U256.ofNat_WF _) (U256.ofNat_WF _)
+      · rw [U256.toNat_ofNat hqm, U256.toNat_ofNat (by omega), Nat.add_mul, ← htm]; omega
+      · rw [U256.toNat_ofNat (by omega)]
+        rw [Nat.pow_succ] at hlt; omega
+    · rw [if_neg c]
+      have hlt' : r.toNat < v.toNat := by
+        apply Nat.lt_of_not_le
+        intro h; exact c ((U256.greaterThanOrEqual_iff r v hr hv).mpr h)
+      refine ⟨q, rfl, hq, ?_⟩
+      rw [← hinv, Nat.add_comm, Nat.add_mul_div_right _ _ hv1, Nat.div_eq_of_lt hlt', Nat.zero_add]
+
+/-- `Uint256.Div` terminates, never panics for `v ≠ 0`, and returns the exact quotient -/
+theorem U256.div_spec (u v : U256) (hu : u.WF) (hv : v.WF) (hv0 : v.toNat ≠ 0) :
+    ∃ q, U256.div u v = some (.ok q) ∧ q.WF ∧ q.toNat = u.toNat / v.toNat := by
+  unfold U256.div
+  have c0 : ¬ v.isZero = true := by rw [U256.isZero_iff v hv]; exact hv0
+  rw [if_neg c0]
+  by_cases c1 : (u.isZero || u.lessThan v) = true
+  · rw [if_pos c1]
+    refine ⟨_, rfl, U256.zero_WF, ?_⟩
+    have : u.toNat < v.toNat := by
+      rw [Bool.or_eq_true, U256.isZero_iff u hu, U256.lessThan_iff u v hu hv] at c1
+      omega
+    rw [Nat.div_eq_of_lt this]; decide
+  · rw [if_neg c1]
+    by_cases c2 : (v.cmp ⟨0, 0, 0, 1⟩ == 0) = true
+    · rw [if_pos c2]
+      rw [U256.cmp_one_iff v hv] at c2
+      exact ⟨u, rfl, hu, by rw [c2, Nat.div_one]⟩
+    · rw [if_neg c2]
+      have h256 := U256.toNat_lt hu
+      apply U256.divOuter_spec v hv (by omega) u.toNat h256 299 _ _ U256.zero_WF hu
+      · have : U256.toNat ⟨0, 0, 0, 0⟩ = 0 := by decide
+        rw [this, Nat.zero_mul, Nat.zero_add]
+      · rw [W4_eq_pow] at h256; omega
+
 end ObiVerif.Fp
